@@ -29,7 +29,7 @@ def large_exchanges(ctx):
     sizes = "1,2,3,999,1000,1001,4999,55556,55557" if ctx.tier == "quick" else "1,2,3,9,10,11,999,1000,1001,4999,9999,10000,10001,49999,50000,50001,55555,55556,55557,111112"
     vlib.run_harness(ctx, [binary, "large-exchange", "--out", out, "--sizes", sizes], timeout=3000)
     rep = vlib.load_json(out)
-    if rep["evaluations"] == 0 or rep["entries"] < 50000 or rep.get("faults_run_into", 0) < rep.get("faulty_exchanges", 1):
+    if rep["evaluations"] == 0 or rep["entries"] < 50000 or (rep["violation_count"] == 0 and rep.get("faults_run_into", 0) < rep.get("faulty_exchanges", 1)):
         raise vlib.ToolError("vacuous large-exchange run: %s" % {k: rep.get(k) for k in ("evaluations", "entries", "faulty_exchanges", "faults_run_into")})
     ctx.log("large exchanges: %d exchanges of up to 55 557 documents through the real poller: %d leave the two nodes apart" % (
         rep["evaluations"], rep["violation_count"]))
